@@ -782,6 +782,24 @@ class Exec:
             raise Unsupported(f'comprehension shape@{e.lineno}')
         gen = e.generators[0]
         it = gen.iter
+        if (isinstance(it, ast.Call) and isinstance(it.func, ast.Attribute) and it.func.attr == 'values' and not it.args
+                and isinstance(it.func.value, ast.Attribute) and it.func.value.attr == '_succ' and val_expr is None and not gen.ifs
+                and isinstance(gen.target, ast.Tuple) and len(gen.target.elts) == 3 and isinstance(key_expr, ast.Name)
+                and isinstance(gen.target.elts[0], ast.Name) and gen.target.elts[0].id == key_expr.id):
+            # `{i for i, _, _ in self._succ.values()}`: the set of levels that carry a stored node (the terminal's included)
+            mv = self.mgr_of_expr(it.func.value.value, p)
+            if mv is not None:
+                S = p.mgrs[mv.key]
+                from z3 import Function as F_
+                has = fresh('lvls_has', ArraySort(I, B))
+                wit = F_(f'lvl_wit!{next(M._cnt)}', I, I)
+                u_, l2_ = Int(f'u!lv{next(M._cnt)}'), Int(f'l!lv{next(M._cnt)}')
+                p.pc.append(ForAll([u_], Implies(S.dom[u_], has[S.lvl[u_]]), patterns=[S.dom[u_]]))
+                p.pc.append(ForAll([l2_], Implies(has[l2_], And(S.dom[wit(l2_)], S.lvl[wit(l2_)] == l2_)), patterns=[has[l2_]]))
+                self.assumed_builtins.add('set comprehension over the values of the node table = the set of levels of stored nodes')
+                r = SetV(has)
+                self.refresh_ne(r, p)
+                return r
         # iteration domain
         valvar = None
         if isinstance(gen.target, ast.Name):
